@@ -145,9 +145,12 @@ func (m *i33Model) pre(op i33Op) i33Expect {
 			e.MustOK = true
 		}
 	case "remove":
-		if !t.Exists {
+		switch {
+		case t.Broken:
+			// a half-created / unmodelled worktree may or may not have an administrative directory
+		case !t.Exists:
 			e.MustErr = true
-		} else {
+		default:
 			e.MustOK = true
 		}
 	case "open":
@@ -204,6 +207,8 @@ func (m *i33Model) post(op i33Op, e i33Expect, ok bool, newCommit, content strin
 			t.LastOp = "remove"
 		} else if e.MustOK {
 			t.Broken = true
+		} else if t.Broken {
+			t.LastOp = "remove-unmodelled"
 		}
 	case "open":
 	case "commit", "checkout", "reset":
